@@ -9,8 +9,8 @@ CONSTANTS
   MaxMerges = 0
   PauseMode = "none"
   HazFD = TRUE
-  HazClose2 = FALSE
-  HazFMMem = FALSE
+  LegacyClose2 = FALSE
+  LegacyFMMem = FALSE
 
 INVARIANTS TypeOK RWExclusion LockBalanced NoPanic ContractHolds
   CloseReturnMeansStopped WriterMeansQuiescent BatchNeverSeesClose NoOrphanAck ForceMergeSingle
